@@ -67,7 +67,7 @@ def exUUIDScript : Script :=
 example : collectionGet toyMd5 exUUIDScript
     = .ok ⟨"u0".toList, ". 0123456789abcdef0123456789abcdef+3+Rxxxxx-foo 0:3:f\n".toList⟩ := by decide
 
-/-- hypothesis of C18_rewrite_only_signatures_partial / C18_pdh_is_spec_partial on a valid manifest -/
+/-- a valid manifest: no block token contains a newline; hypothesis of C18_pdh_is_spec_partial -/
 example : ∀ t ∈ (splitOn ' ' exGood).tail, locPrefix t = true → '\n' ∉ t := by decide
 example : ∀ t ∈ (splitOn ' ' exGood).tail, ∀ n, sizedLen t = some n → wfHints (t.drop n) = true := by
   intro t ht n hn
